@@ -111,8 +111,32 @@ pub enum ModelStep {
     Determined(String),
     /// The statement is silent for this (state, key): adopt the implementation's text.
     Unspecified(&'static str),
+    /// The statement leaves a choice but not a free one: the result must be one of these
+    /// texts (the implementation's is adopted).
+    OneOf(Vec<String>, &'static str),
     /// The reph key with old-style reph on: decided by the C13 rule.
     Reph,
+}
+
+/// The independent vowel that matches a vowel sign in Unicode, for the signs the engine's own
+/// table leaves out (the statement says "the matching independent vowel": whatever a rule
+/// makes of such a sign, it is not some other letter).
+fn unicode_vowel_for_unmapped_kar(c: char) -> Option<char> {
+    match c {
+        '\u{09C4}' => Some('\u{09E0}'), // VOCALIC RR
+        _ => None,
+    }
+}
+
+/// A vowel sign for which the engine has no independent form meets a vowel-forming rule:
+/// nothing composed, the sign appended as it is, or the rule applied with the vowel that
+/// really matches the sign. `rule_applied` is the text before the vowel is pushed.
+fn unmapped_kar_outcomes(text: &str, rule_applied: &str, kar: char) -> ModelStep {
+    let mut v = vec![text.to_string(), format!("{}{}", text, kar)];
+    if let Some(vowel) = unicode_vowel_for_unmapped_kar(kar) {
+        v.push(format!("{}{}", rule_applied, vowel));
+    }
+    ModelStep::OneOf(v, "vowel sign without independent form")
 }
 
 /// One key value applied to `text` under `spec` (old vowel-sign order must be off).
@@ -179,7 +203,7 @@ pub fn apply_value(text: &str, value: &str, spec: &CfgSpec) -> ModelStep {
                             out.push(v);
                             ModelStep::Determined(out)
                         }
-                        None => ModelStep::Unspecified("vowel sign without independent form"),
+                        None => unmapped_kar_outcomes(text, text, first),
                     }
                 }
                 Some(false) => {}
@@ -200,7 +224,10 @@ pub fn apply_value(text: &str, value: &str, spec: &CfgSpec) -> ModelStep {
                     out.push(v);
                     ModelStep::Determined(out)
                 }
-                None => ModelStep::Unspecified("vowel sign without independent form"),
+                None => {
+                    out.pop();
+                    unmapped_kar_outcomes(text, &out, first)
+                }
             };
         }
         // 5. traditional joining
